@@ -46,12 +46,24 @@ class World:
         return self.q
 
     def push_at(self, t, item):
+        """Deliver `item` on the event stream at virtual time t.  Items for the same instant are delivered in the
+        order they were pushed (asyncio does not order equal-time timers), by one timer per instant."""
         loop = asyncio.get_running_loop()
         q = self.queue()
         if t <= loop.time():
             q.put_nowait(item)
-        else:
-            loop.call_at(t, q.put_nowait, item)
+            return
+        if not hasattr(self, "_due"):
+            self._due = {}
+        if t in self._due:
+            self._due[t].append(item)
+            return
+        self._due[t] = [item]
+
+        def fire():
+            for it in self._due.pop(t, []):
+                q.put_nowait(it)
+        loop.call_at(t, fire)
 
 
 class _SSEStream(_httpx.AsyncByteStream):
